@@ -62,7 +62,7 @@ class SquareRootScale(mscale.ScaleBase):
         output_dims = 1
         is_separable = True
 
-        def transform(self, a):
+        def transform_non_affine(self, a):
             """Square everything."""
             return np.array(a) ** 2
 
